@@ -11,7 +11,7 @@ Confirmation (in a scratch worktree of /repo HEAD, shared cargo target dir /tmp/
 import json, os, re, shutil, subprocess, sys, time
 
 ROOT = os.path.dirname(os.path.dirname(os.path.abspath(__file__)))
-TGT = "/tmp/confirm/tgt"
+TGT = os.environ.get("CONFIRM_TGT", "/tmp/confirm/tgt")
 NEXTEST = ["cargo", "nextest", "run", "--workspace", "--no-fail-fast", "--tool-config-file", "pb:/w/lib/nextest.toml",
            "--profile", "pb", "--test-threads", "8", "--offline"]
 
